@@ -6,6 +6,7 @@ import (
 	"go/types"
 	"sort"
 	"strings"
+	"sync"
 
 	"golang.org/x/tools/go/ssa"
 )
@@ -19,14 +20,14 @@ type Lin struct {
 	T map[string]int64
 }
 
-func linConst(c int64) Lin        { return Lin{C: c, T: map[string]int64{}} }
-func LinAtom(a string) Lin        { return Lin{T: map[string]int64{a: 1}} }
-func (l Lin) Plus(o Lin) Lin      { return l.comb(o, 1) }
-func (l Lin) Minus(o Lin) Lin     { return l.comb(o, -1) }
-func (l Lin) AddC(c int64) Lin    { return l.comb(linConst(c), 1) }
-func (l Lin) Neg() Lin            { return linConst(0).comb(l, -1) }
-func (l Lin) Equal(o Lin) bool    { return l.String() == o.String() }
-func (l Lin) IsConst() bool       { return len(l.T) == 0 }
+func linConst(c int64) Lin     { return Lin{C: c, T: map[string]int64{}} }
+func LinAtom(a string) Lin     { return Lin{T: map[string]int64{a: 1}} }
+func (l Lin) Plus(o Lin) Lin   { return l.comb(o, 1) }
+func (l Lin) Minus(o Lin) Lin  { return l.comb(o, -1) }
+func (l Lin) AddC(c int64) Lin { return l.comb(linConst(c), 1) }
+func (l Lin) Neg() Lin         { return linConst(0).comb(l, -1) }
+func (l Lin) Equal(o Lin) bool { return l.String() == o.String() }
+func (l Lin) IsConst() bool    { return len(l.T) == 0 }
 
 func (l Lin) comb(o Lin, k int64) Lin {
 	r := Lin{C: l.C + k*o.C, T: map[string]int64{}}
@@ -346,7 +347,46 @@ func MkLit(l Lin, set uint8) Lit {
 	if fl {
 		set = flipSet(set)
 	}
-	return Lit{Form: n.String(), Set: set}
+	f := n.String()
+	formMu.Lock()
+	formReg[f] = n
+	formMu.Unlock()
+	return Lit{Form: f, Set: set}
+}
+
+// formReg remembers the linear form behind every literal's key, so that forms differing only in their
+// constant term (x and x-1: `x <= 0` vs `x < 1`) are compared with integer semantics.
+var (
+	formMu  sync.Mutex
+	formReg = map[string]Lin{}
+)
+
+// FormBase is the constant-free part of a literal's form (the form itself when unknown).
+func FormBase(form string) string {
+	formMu.Lock()
+	l, ok := formReg[form]
+	formMu.Unlock()
+	if !ok || len(l.T) == 0 {
+		return form
+	}
+	return Lin{T: l.T}.String()
+}
+
+// FormLinBase returns the constant-free linear form behind a literal's key.
+func FormLinBase(form string) Lin {
+	formMu.Lock()
+	defer formMu.Unlock()
+	l, ok := formReg[form]
+	if !ok {
+		return LinAtom(form)
+	}
+	return Lin{T: l.T}
+}
+
+func formConst(form string) int64 {
+	formMu.Lock()
+	defer formMu.Unlock()
+	return formReg[form].C
 }
 
 // CondLit turns a branch condition (and the polarity taken) into a literal.
@@ -567,8 +607,19 @@ func setName(s uint8) string {
 }
 
 // EquivDNF compares two conditions by enumerating the sign assignments of the distinct forms
-// (3^k, k small). It returns a counterexample assignment when they differ.
+// (k small). Forms that differ only in their constant term are signs of ONE integer quantity relative to
+// several thresholds and are enumerated consistently (`x <= 0` and `x < 1` are the same condition).
+// It returns a counterexample assignment when they differ.
 func EquivDNF(a, b DNF) (bool, string) {
+	return cmpDNF(a, b, func(x, y bool) bool { return x == y })
+}
+
+// ImpliesDNF: a => b under every consistent assignment.
+func ImpliesDNF(a, b DNF) (bool, string) {
+	return cmpDNF(a, b, func(x, y bool) bool { return !x || y })
+}
+
+func cmpDNF(a, b DNF, rel func(x, y bool) bool) (bool, string) {
 	fm := map[string]bool{}
 	for _, f := range a.Forms() {
 		fm[f] = true
@@ -584,11 +635,20 @@ func EquivDNF(a, b DNF) (bool, string) {
 	if len(forms) > 9 {
 		return false, "too many distinct forms to compare"
 	}
+	groups := map[string][]string{}
+	var bases []string
+	for _, f := range forms {
+		b := FormBase(f)
+		if _, ok := groups[b]; !ok {
+			bases = append(bases, b)
+		}
+		groups[b] = append(groups[b], f)
+	}
 	asg := map[string]uint8{}
 	var rec func(i int) (bool, string)
 	rec = func(i int) (bool, string) {
-		if i == len(forms) {
-			if a.eval(asg) != b.eval(asg) {
+		if i == len(bases) {
+			if !rel(a.eval(asg), b.eval(asg)) {
 				var parts []string
 				for _, f := range forms {
 					parts = append(parts, "("+f+")"+setName(asg[f]))
@@ -597,8 +657,38 @@ func EquivDNF(a, b DNF) (bool, string) {
 			}
 			return true, ""
 		}
-		for _, s := range []uint8{SNeg, SZero, SPos} {
-			asg[forms[i]] = s
+		fs := groups[bases[i]]
+		// representative integer values of the base: each threshold, one below the lowest, one above the
+		// highest, and one inside every gap wider than 1
+		var ts []int64
+		for _, f := range fs {
+			ts = append(ts, -formConst(f))
+		}
+		sort.Slice(ts, func(x, y int) bool { return ts[x] < ts[y] })
+		var reps []int64
+		reps = append(reps, ts[0]-1)
+		for k, t := range ts {
+			if k > 0 && t == ts[k-1] {
+				continue
+			}
+			if k > 0 && t-ts[k-1] > 1 {
+				reps = append(reps, ts[k-1]+1)
+			}
+			reps = append(reps, t)
+		}
+		reps = append(reps, ts[len(ts)-1]+1)
+		for _, v := range reps {
+			for _, f := range fs {
+				d := v + formConst(f)
+				switch {
+				case d < 0:
+					asg[f] = SNeg
+				case d == 0:
+					asg[f] = SZero
+				default:
+					asg[f] = SPos
+				}
+			}
 			if ok, w := rec(i + 1); !ok {
 				return false, w
 			}
